@@ -127,6 +127,7 @@ func jobsFor(prop, tier string) []Job {
 			mk("txn-2-rw-del", params("NT", 2, "LIB0", 3, "LIB", 4, "K0", 2, "IBMAX", 0, "BLKMAX", 0, "REOPEN", 0)),
 			mk("txn-1-misuse", params("NT", 1, "LIB0", 7, "LIB", 5, "K0", 3, "UPDATEERR", 1)),
 			mk("txn-2-updateerr", params("NT", 2, "LIB0", 2, "LIB", 2, "K0", 1, "UPDATEERR", 1, "IBMAX", 0, "BLKMAX", 0)),
+			mk("txn-2-nodrain-queue", params("NT", 2, "LIB0", 3, "LIB", 2, "K0", 3, "DRAIN", 0, "IBMIN", 2, "IBMAX", 2, "BLKMAX", 0, "REOPEN", 0)),
 			mk("txn-2-extracommit", params("NT", 2, "LIB0", 3, "LIB", 2, "K0", 0, "EXTRA", 1, "IBMAX", 0, "BLKMAX", 0, "REOPEN", 0)),
 		}
 		if thorough {
@@ -181,12 +182,22 @@ func jobsFor(prop, tier string) []Job {
 			mk("conc-1w2c-dev1", params("WRITERS", 1, "COMMITS", 2, "IBMAX", 1), 1, false),
 			mk("conc-1w2c-eager", params("WRITERS", 1, "COMMITS", 2, "IBMAX", 2), 0, true),
 			mk("conc-1w2c-afterack-dev1", params("WRITERS", 1, "COMMITS", 2, "IBMAX", 0, "AFTERACK", 1), 1, false),
+			func() Job {
+				j := mk("conc3-2writers-prebegun-dev1", params("MEMTHR", 20, "IBMAX", 1), 1, false)
+				j.Fn = "VH_CONC3"
+				return j
+			}(),
 		}
 		if prop == "C12" {
 			cj := mk("conc2-rmw-dev1", params("MEMTHR", 1000), 1, false)
 			cj.Fn = "VH_CONC2"
 			cj.OnlyAsserts = []string{"C05.", "C06.", "C07."}
 			js = append(js, cj)
+			// two committers whose commits rotate the memtable
+			cr := mk("conc2-rmw-rotating-dev1", params("MEMTHR", 20, "IBMAX", 1), 1, false)
+			cr.Fn = "VH_CONC2"
+			cr.OnlyAsserts = []string{"C05.", "C06.", "C07."}
+			js = append(js, cr)
 		}
 		if thorough {
 			js = append(js, mk("conc-1w2c-dev2", params("WRITERS", 1, "COMMITS", 2, "IBMAX", 2), 2, false),
@@ -201,9 +212,16 @@ func jobsFor(prop, tier string) []Job {
 				Outside: []string{"more tables/entries/rounds than the listed configurations (3x3 is out of reach)", "user keys longer than 2 bytes"}}
 		}
 		js = []Job{
-			mk("c09-1r-2+1", params("R", 1, "T", 2, "ES", 21, "L0T", 1, "RATIO", 2, "KL2", 1)),
+			mk("c09-1r-2+1", params("R", 1, "T", 2, "ES", 21, "L0T", 1, "RATIO", 2, "KLMASK", 2)),
 			mk("c09-1r-1+2-blk64", params("R", 1, "T", 2, "ES", 12, "L0T", 1, "RATIO", 2, "BLK", 64)),
 			mk("c09-2r-cascade-recover", params("R", 2, "T", 1, "E", 2, "E2", 1, "L0T", 0, "RATIO", 1, "RECOVER", 1)),
+			func() Job {
+				// more than ten tables in a level, handles rebuilt by recovery, then flush + compaction
+				j := mk("c09-manyfiles-recover", params("N", 12, "L0T", 12, "C09", 1))
+				j.Fn, j.FilterSummary = "VH_C02_ManyFiles", false
+				j.Bounds = map[string]any{"tables_in_L0": 12, "then": "reopen (handles rebuilt from 0-0.db .. 0-11.db), 2 more flushes, compaction of 14 tables, reopen", "keys": "concrete", "values": "symbolic bytes"}
+				return j
+			}(),
 		}
 		if thorough {
 			js = append(js,
@@ -212,6 +230,8 @@ func jobsFor(prop, tier string) []Job {
 				mk("c09-1r-2x2", params("R", 1, "T", 2, "E", 2, "L0T", 1, "RATIO", 2)),
 				mk("c09-1r-3x1", params("R", 1, "T", 3, "E", 1, "L0T", 2, "RATIO", 2)),
 				mk("c09-1r-2+1-k2", params("R", 1, "T", 2, "ES", 21, "L0T", 1, "RATIO", 2, "KL2", 2, "QKL", 2)),
+				mk("c09-1r-1+2-k2mid", params("R", 1, "T", 2, "ES", 12, "L0T", 1, "RATIO", 2, "KLMASK", 4, "QKL", 2)),
+				mk("c09-1r-2+1-k2first", params("R", 1, "T", 2, "ES", 21, "L0T", 1, "RATIO", 2, "KLMASK", 1)),
 				mk("c09-2r-2x1-l1merge-wm", params("R", 2, "T", 2, "E", 1, "L0T", 1, "RATIO", 2)),
 				mk("c09-1r-2+1-ts99", params("R", 1, "T", 2, "ES", 21, "L0T", 1, "RATIO", 2, "MAXTS", 99)),
 			)
